@@ -64,7 +64,20 @@ func finish(s Scn, frames [2]int) Scn {
 	if s.Refuse != 0 && s.Mode == "" {
 		s.Mode = "reject"
 	}
-	if s.Refuse == 0 {
+	if s.Timed {
+		// the server is away for longer than DialTimeout and back within the budget; refusals are
+		// visible to the dialer (handshake hook) or the port is really closed
+		s.Refuse, s.Script, s.Losses = 0, "", 1
+		if s.Mode == "" {
+			s.Mode = "reject"
+		}
+		if s.Mode == "reject" {
+			s.Hook = "handshake"
+		}
+		if s.Base != "awaiting" {
+			s.Base = "idle"
+		}
+	} else if s.Refuse == 0 {
 		s.Mode = ""
 	}
 	if s.Budget == 0 {
@@ -128,7 +141,7 @@ func finish(s Scn, frames [2]int) Scn {
 		s.Class = "repeated"
 	case s.Budget != 0 && s.Refuse < 0:
 		s.Class = "exhausted"
-	case s.Refuse > 0 || script == "drop" || script == "redundant-redial" || strings.Contains(s.Script, "@redialfn."):
+	case s.Timed || s.Refuse > 0 || script == "drop" || script == "redundant-redial" || strings.Contains(s.Script, "@redialfn."):
 		s.Class = "during-redial"
 	case s.Base == "awaiting":
 		s.Class = "awaiting-reply"
@@ -236,6 +249,17 @@ func scenarios(tier string, seed int64) []Scn {
 			add(Scn{Budget: []int{1, 3, -1}[i], Base: "awaiting", NCalls: 2, Script: scripts[r.Intn(len(scripts))], Writer: r.Pick("call", "push"),
 				DelaySeed: int64(r.Intn(1 << 30)), DelayP: 300, UserID: true})
 		}
+		// a DialTimeout is configured: it bounds one attempt, not the redial round
+		add(Scn{Budget: 3, Base: "awaiting", NCalls: 1, Refuse: 2, Mode: "reject", Hook: "handshake", DialTimeoutMs: 150, UserID: true})
+		add(Scn{Budget: 1, Base: "idle", Refuse: 1, Mode: "down", DialTimeoutMs: 100})
+		add(Scn{Budget: 40, Base: "idle", Timed: true, Mode: "reject", DialTimeoutMs: 100, IntervalMs: 0, UserID: true})
+		add(Scn{Budget: 40, Base: "awaiting", NCalls: 2, Timed: true, Mode: "down", DialTimeoutMs: 150, IntervalMs: 0, RST: true})
+		add(Scn{Budget: 2000, Base: "awaiting", NCalls: 1, Timed: true, Mode: "reject", DialTimeoutMs: 100, IntervalMs: 1, UserID: true, RST: true})
+		add(Scn{Budget: 2000, Base: "idle", Timed: true, Mode: "down", DialTimeoutMs: 200, IntervalMs: 1})
+		// an unlimited budget with a DialTimeout and a long outage never ends (last in the list: with a
+		// dialer that never gets there the redial loop spins for the rest of the process)
+		add(Scn{Budget: -1, Base: "idle", Timed: true, Mode: "reject", DialTimeoutMs: 100, IntervalMs: 1, UserID: true})
+		add(Scn{Budget: -1, Base: "awaiting", NCalls: 1, Timed: true, Mode: "down", DialTimeoutMs: 150, IntervalMs: 0})
 		return out
 	}
 
@@ -338,6 +362,18 @@ func scenarios(tier string, seed int64) []Scn {
 			addb(Scn{Budget: b, Base: "mid-write", K: 7, Losses: l, Hook: "handshake"})
 		}
 	}
+	// a DialTimeout is configured (bounds one attempt, not the round): ordinary outages, and outages that
+	// outlast it while using part of the budget
+	for _, dtm := range []int{100, 200, 300} {
+		for _, md := range []string{"reject", "down"} {
+			for _, bs := range []string{"idle", "awaiting"} {
+				addb(Scn{Budget: 3, Base: bs, NCalls: 2, Refuse: 2, Mode: md, Hook: "handshake", DialTimeoutMs: dtm, UserID: bs == "idle"})
+				addb(Scn{Budget: 40, Base: bs, NCalls: 1, Timed: true, Mode: md, DialTimeoutMs: dtm, IntervalMs: 0, RST: md == "down"})
+				addb(Scn{Budget: 3000, Base: bs, NCalls: 2, Timed: true, Mode: md, DialTimeoutMs: dtm, IntervalMs: 1, UserID: true})
+				addb(Scn{Budget: 200, Base: bs, NCalls: 1, Timed: true, Mode: md, DialTimeoutMs: dtm, IntervalMs: 20})
+			}
+		}
+	}
 	// seeded random combinations up to 1200
 	for len(base) < 1200 {
 		s := Scn{Budget: []int{1, 3, -1, 0}[r.Intn(4)], Base: r.Pick("idle", "awaiting", "awaiting", "mid-write", "mid-write"), NCalls: 1 + r.Intn(3),
@@ -375,6 +411,12 @@ func scenarios(tier string, seed int64) []Scn {
 				s.DelayP = []int{0, 150, 400}[v]
 			}
 			add(s)
+		}
+	}
+	for _, dtm := range []int{100, 300} {
+		for _, md := range []string{"reject", "down"} {
+			add(Scn{Budget: -1, Base: "idle", Timed: true, Mode: md, DialTimeoutMs: dtm, IntervalMs: 1, UserID: md == "down"})
+			add(Scn{Budget: -1, Base: "awaiting", NCalls: 1, Timed: true, Mode: md, DialTimeoutMs: dtm, IntervalMs: 0})
 		}
 	}
 	return out
